@@ -162,6 +162,10 @@ def build_model():
         exe = os.path.join(outdir, "model_driver")
         if os.path.exists(exe):
             return exe, ""
+        # extraction reads the compiled .vo files: make sure they are those of the sources the key was computed from
+        okb, blog = build_coq()
+        if not okb:
+            return None, "coq build failed before extraction:\n" + blog[-2000:]
         os.makedirs(outdir, exist_ok=True)
         rc, out = sh(f"timeout 600 coqc -Q {COQ}/theories AJ {COQ}/theories/Extract/Extract.v -o {outdir}/Extract.vo",
                      cwd=outdir, timeout=700)
